@@ -5,8 +5,11 @@ package codec
 // lives in the client package.
 
 import (
+	"bytes"
+	"encoding/binary"
 	"fmt"
 	"io"
+	"math"
 	"testing"
 
 	"github.com/ClickHouse/ch-go/proto"
@@ -275,6 +278,261 @@ func TestC08MessageSegmentation(t *testing.T) {
 		st.LabelN("exhaustive-compositions", int64(1)<<(n-1))
 		st.Case(stats.Hash("c08m", data, name, rev), n > 1, func() any {
 			return map[string]any{"kind": "message-segmentation", "message": name, "rev": rev, "bytes": n, "compositions": 1 << (n - 1)}
+		})
+	})
+}
+
+// Primitive level: every typed read of proto.Reader (what the hand-written message decoders
+// are made of) against a stream of primitives written by proto.Buffer and, independently, by
+// hand - under every composition of the stream into segments when it is short, otherwise
+// one-byte, two-piece at every offset and random segmentations.
+func TestC08PrimitiveSegmentation(t *testing.T) {
+	st := stats.G()
+	type prim struct {
+		kind string
+		u    uint64
+		hi   uint64
+		s    []byte
+	}
+	kinds := []string{"uvarint", "int", "len", "str", "strbytes", "strappend", "strraw", "byte", "bool", "i8", "i16", "i32", "i64", "i128", "u8", "u16", "u32", "u64", "u128", "f32", "f64", "raw", "full"}
+	le := func(dst []byte, v uint64, n int) []byte {
+		for i := 0; i < n; i++ {
+			dst = append(dst, byte(v>>(8*i)))
+		}
+		return dst
+	}
+	rapid.Check(t, func(rt *rapid.T) {
+		n := rapid.IntRange(1, 8).Draw(rt, "values")
+		var ps []prim
+		var want []byte // encoded by hand
+		var lib proto.Buffer
+		for i := 0; i < n; i++ {
+			p := prim{kind: rapid.SampledFrom(kinds).Draw(rt, "kind")}
+			p.u = rapid.OneOf(rapid.Uint64(), rapid.Uint64Range(0, 300), rapid.SampledFrom([]uint64{0, 127, 128, 16383, 16384, 1<<63 - 1, 1 << 63, 1<<64 - 1})).Draw(rt, "u")
+			p.hi = rapid.Uint64().Draw(rt, "hi")
+			switch p.kind {
+			case "uvarint":
+				want = binary.AppendUvarint(want, p.u)
+				lib.PutUVarInt(p.u)
+			case "int":
+				p.u %= 1 << 31
+				want = binary.AppendUvarint(want, p.u)
+				lib.PutInt(int(p.u))
+			case "len":
+				p.u %= 1 << 20
+				want = binary.AppendUvarint(want, p.u)
+				lib.PutLen(int(p.u))
+			case "str", "strbytes", "strappend", "strraw":
+				p.s = rapid.SliceOfN(rapid.Byte(), 0, 200).Draw(rt, "s")
+				if rapid.IntRange(0, 9).Draw(rt, "long") == 0 {
+					p.s = bytes.Repeat([]byte{byte(p.u)}, 128+int(p.u%300))
+				}
+				want = append(binary.AppendUvarint(want, uint64(len(p.s))), p.s...)
+				lib.PutString(string(p.s))
+			case "byte", "u8":
+				want = append(want, byte(p.u))
+				if p.kind == "byte" {
+					lib.PutByte(byte(p.u))
+				} else {
+					lib.PutUInt8(uint8(p.u))
+				}
+			case "bool":
+				p.u &= 1
+				want = append(want, byte(p.u))
+				lib.PutBool(p.u == 1)
+			case "i8":
+				want = le(want, p.u, 1)
+				lib.PutInt8(int8(p.u))
+			case "i16":
+				want = le(want, p.u, 2)
+				lib.PutInt16(int16(p.u))
+			case "u16":
+				want = le(want, p.u, 2)
+				lib.PutUInt16(uint16(p.u))
+			case "i32":
+				want = le(want, p.u, 4)
+				lib.PutInt32(int32(p.u))
+			case "u32":
+				want = le(want, p.u, 4)
+				lib.PutUInt32(uint32(p.u))
+			case "i64":
+				want = le(want, p.u, 8)
+				lib.PutInt64(int64(p.u))
+			case "u64":
+				want = le(want, p.u, 8)
+				lib.PutUInt64(p.u)
+			case "i128":
+				want = le(le(want, p.u, 8), p.hi, 8)
+				lib.PutInt128(proto.Int128{Low: p.u, High: p.hi})
+			case "u128":
+				want = le(le(want, p.u, 8), p.hi, 8)
+				lib.PutUInt128(proto.UInt128{Low: p.u, High: p.hi})
+			case "f32":
+				want = le(want, p.u, 4)
+				lib.PutFloat32(math.Float32frombits(uint32(p.u)))
+			case "f64":
+				want = le(want, p.u, 8)
+				lib.PutFloat64(math.Float64frombits(p.u))
+			case "raw", "full":
+				p.s = rapid.SliceOfN(rapid.Byte(), 0, 40).Draw(rt, "s")
+				want = append(want, p.s...)
+				lib.PutRaw(p.s)
+			}
+			ps = append(ps, p)
+		}
+		if !bytes.Equal(lib.Buf, want) {
+			rt.Fatalf("proto.Buffer wrote %x, the same values encoded by hand are %x", lib.Buf, want)
+		}
+		read := func(r *proto.Reader) error {
+			for i, p := range ps {
+				bad := func(got any, err error) error {
+					return fmt.Errorf("value %d (%s): got %v, err %v; written %d / %x", i, p.kind, got, err, p.u, p.s)
+				}
+				switch p.kind {
+				case "uvarint":
+					if v, err := r.UVarInt(); err != nil || v != p.u {
+						return bad(v, err)
+					}
+				case "int":
+					if v, err := r.Int(); err != nil || uint64(v) != p.u {
+						return bad(v, err)
+					}
+				case "len":
+					if v, err := r.StrLen(); err != nil || uint64(v) != p.u {
+						return bad(v, err)
+					}
+				case "str":
+					if v, err := r.Str(); err != nil || v != string(p.s) {
+						return bad(v, err)
+					}
+				case "strbytes":
+					if v, err := r.StrBytes(); err != nil || !bytes.Equal(v, p.s) {
+						return bad(v, err)
+					}
+				case "strappend":
+					if v, err := r.StrAppend([]byte("pre")); err != nil || string(v) != "pre"+string(p.s) {
+						return bad(v, err)
+					}
+				case "strraw":
+					if v, err := r.StrRaw(); err != nil || !bytes.Equal(v, p.s) {
+						return bad(v, err)
+					}
+				case "byte":
+					if v, err := r.Byte(); err != nil || v != byte(p.u) {
+						return bad(v, err)
+					}
+				case "u8":
+					if v, err := r.UInt8(); err != nil || v != uint8(p.u) {
+						return bad(v, err)
+					}
+				case "bool":
+					if v, err := r.Bool(); err != nil || v != (p.u == 1) {
+						return bad(v, err)
+					}
+				case "i8":
+					if v, err := r.Int8(); err != nil || v != int8(p.u) {
+						return bad(v, err)
+					}
+				case "i16":
+					if v, err := r.Int16(); err != nil || v != int16(p.u) {
+						return bad(v, err)
+					}
+				case "u16":
+					if v, err := r.UInt16(); err != nil || v != uint16(p.u) {
+						return bad(v, err)
+					}
+				case "i32":
+					if v, err := r.Int32(); err != nil || v != int32(p.u) {
+						return bad(v, err)
+					}
+				case "u32":
+					if v, err := r.UInt32(); err != nil || v != uint32(p.u) {
+						return bad(v, err)
+					}
+				case "i64":
+					if v, err := r.Int64(); err != nil || v != int64(p.u) {
+						return bad(v, err)
+					}
+				case "u64":
+					if v, err := r.UInt64(); err != nil || v != p.u {
+						return bad(v, err)
+					}
+				case "i128":
+					if v, err := r.Int128(); err != nil || v != (proto.Int128{Low: p.u, High: p.hi}) {
+						return bad(v, err)
+					}
+				case "u128":
+					if v, err := r.UInt128(); err != nil || v != (proto.UInt128{Low: p.u, High: p.hi}) {
+						return bad(v, err)
+					}
+				case "f32":
+					if v, err := r.Float32(); err != nil || math.Float32bits(v) != uint32(p.u) {
+						return bad(v, err)
+					}
+				case "f64":
+					if v, err := r.Float64(); err != nil || math.Float64bits(v) != p.u {
+						return bad(v, err)
+					}
+				case "raw":
+					if v, err := r.ReadRaw(len(p.s)); err != nil || !bytes.Equal(v, p.s) {
+						return bad(v, err)
+					}
+				case "full":
+					v := make([]byte, len(p.s))
+					if err := r.ReadFull(v); err != nil || !bytes.Equal(v, p.s) {
+						return bad(v, err)
+					}
+				}
+			}
+			rest := make([]byte, len(sentinel))
+			if err := r.ReadFull(rest); err != nil || string(rest) != sentinel {
+				return fmt.Errorf("a different number of bytes was consumed (rest %x, err %v)", rest, err)
+			}
+			return nil
+		}
+		if len(want) == 0 {
+			return // only empty raw reads were drawn
+		}
+		full := append(append([]byte(nil), want...), sentinel...)
+		total := len(full)
+		var segmentations [][]int
+		if len(want) <= 11 {
+			for mask := 0; mask < 1<<(len(want)-1); mask++ {
+				var segs []int
+				run := 1
+				for b := 0; b < len(want)-1; b++ {
+					if mask&(1<<b) != 0 {
+						segs = append(segs, run)
+						run = 1
+					} else {
+						run++
+					}
+				}
+				segmentations = append(segmentations, append(segs, run))
+			}
+			st.Label("exhaustive-compositions")
+		} else {
+			segmentations = append(segmentations, []int{total}, ones(total))
+			for k := 1; k < len(want); k++ {
+				segmentations = append(segmentations, []int{k})
+			}
+			for i := 0; i < 20; i++ {
+				segmentations = append(segmentations, rapid.SliceOfN(rapid.IntRange(1, 9), 1, 60).Draw(rt, "segs"))
+			}
+		}
+		for _, segs := range segmentations {
+			r := proto.NewReader(&chunkReader{data: append([]byte(nil), full...), segs: append([]int(nil), segs...)})
+			if err := safely(func() error { return read(r) }); err != nil {
+				rt.Fatalf("stream %x delivered as %v: %v", want, short(segs), err)
+			}
+		}
+		st.Evals(int64(len(segmentations)))
+		st.Case(stats.Hash("c08p", want), len(want) > 1, func() any {
+			var ks []string
+			for _, p := range ps {
+				ks = append(ks, p.kind)
+			}
+			return map[string]any{"kind": "primitive-segmentation", "values": ks, "bytes": len(want), "segmentations": len(segmentations)}
 		})
 	})
 }
